@@ -917,6 +917,29 @@ def _srv_entries(term):
     return cur
 
 
+def server_deadline_oracle(ops, out):
+    """C10 (server side, established connections): after every step() at server clock `now`, every established
+    entry has its deadline in (now, now + active_timeout_ms] — an entry whose silence has reached the timeout was
+    reported and forgotten by this very step (the pass that does it is part of every step), and no deadline lies
+    further ahead than one full timeout."""
+    ato = t0 = None
+    for (t, info, term) in ep_events(ops, out):
+        if t[0] == "srvnew":
+            ato, t0 = int(t[-2]), int(t[-1])
+        if t[0] == "srvstep" and ato is not None and term and term.startswith("st clients="):
+            now = int(t[1]) - t0
+            for k, v in _srv_entries(term).items():
+                m = re.match(r"A(\d+):", v)
+                if not m:
+                    continue
+                to = int(m.group(1))
+                if to <= now:
+                    return "the server step at %d ms left client %s established although its active timeout expired at %d ms (active_timeout %d)" % (now, k, to, ato)
+                if to > now + ato:
+                    return "after the server step at %d ms client %s has its deadline at %d ms, more than active_timeout %d ahead" % (now, k, to, ato)
+    return None
+
+
 def pending_budget_oracle(ops, out):
     """C10 / C17 / C18 (server side, handshake attempts): a pending entry (SYN accepted, ACK outstanding) is
     forgotten once its retry budget is used up — it does not stay pending beyond 11 intervals of 2 s (plus the
@@ -1071,6 +1094,7 @@ def timeout_oracle(ops, out):
     ev = ep_events(ops, out)
     ato, created, connected, last_rx, syn_count, peer_of = {}, {}, {}, {}, {}, {}
     pending_fwd = {}
+    pending_any, recent_S, conn_ident = {}, {}, {}
     disc_at, cli_now = {}, {}
     for (t, info, term) in ev:
         if t[0] == "clidisc":
@@ -1081,6 +1105,7 @@ def timeout_oracle(ops, out):
             j = t[1]
             disc_at.pop(j, None); cli_now.pop(j, None)
             ato[j] = int(t[9]); created[j] = int(t[10]); connected[j] = None; syn_count[j] = 0
+            conn_ident[j] = None; recent_S[j] = set(); pending_any[j] = False
             if t[2] != "srv":
                 peer_of[t[2]] = j
         if t[0] == "pfwd":
@@ -1096,8 +1121,24 @@ def timeout_oracle(ops, out):
                 fwd = term.split()[2] if term and term.startswith("new fwd") and len(term.split()) > 2 else ""
                 if "".join(kinds_in[i] for i in plan) != fwd:
                     return None          # the recomputed plan does not explain the relay's report: no verdict
-                if any(srcs[i] == "S" for i in plan):
-                    pending_fwd[j] = True
+                # A forwarded server frame counts as "heard" only when it is certain to refresh the client's deadline:
+                # data / sync / ack frames, and a SYN+ACK only if it is the one the client connected with (an
+                # established client ignores a SYN+ACK carrying another server nonce — e.g. after the server dropped
+                # the half-open entry and accepted a resent SYN under a new nonce — without counting it as contact).
+                idents = [l.split()[3] for l in info if l.startswith("dgram ")]
+                for i in plan:
+                    if srcs[i] != "S":
+                        continue
+                    if kinds_in[i] == "S":
+                        recent_S.setdefault(j, set()).add(idents[i])
+                        if conn_ident.get(j) is not None and idents[i] == conn_ident[j]:
+                            pending_fwd[j] = True
+                        else:
+                            pending_any[j] = True
+                    elif kinds_in[i] in ("x", "y", "k"):
+                        pending_fwd[j] = True
+                    else:
+                        pending_any[j] = True
         if t[0] == "psendc":
             j = peer_of.get(t[1])
             if j is not None:
@@ -1109,11 +1150,13 @@ def timeout_oracle(ops, out):
                 if l == "ev connect 0":
                     connected[j] = now
                     last_rx[j] = now
+                    rs = recent_S.get(j, set())
+                    conn_ident[j] = next(iter(rs)) if len(rs) == 1 else None
                 if l == "ev error 0 timeout":
                     if connected.get(j) is not None:
                         # established: only after a full active_timeout of silence — or, once the application has
                         # asked to disconnect, after the disconnect retry budget (10 resends, 2 s apart)
-                        silent = pending_fwd.get(j) or now - last_rx.get(j, 0) >= ato[j]
+                        silent = pending_fwd.get(j) or pending_any.get(j) or now - last_rx.get(j, 0) >= ato[j]
                         gave_up = disc_at.get(j) is not None and now - disc_at[j] >= 20000
                         if not silent and not gave_up:
                             if disc_at.get(j) is not None:
@@ -1125,4 +1168,6 @@ def timeout_oracle(ops, out):
             if pending_fwd.get(j):
                 last_rx[j] = now
                 pending_fwd[j] = False
+            pending_any[j] = False
+            recent_S[j] = set()
     return None
